@@ -208,7 +208,56 @@ theorem chainM_six_transformations (s : SchemaD) (fx : Fixes) (hfx : HeadVars fx
     rw [chainM_silent_iff_alone s fx h7 d hw, chainM_silent_iff_alone s fx h7 (V.doc d) ((V.wfIds d).mpr hw)]
     exact p4 V hinj
 
+/-- every error the chain /repo runs records belongs to a member -/
+theorem chainM_errs_in_rules (fuel : Nat) (s : SchemaD) (fx : Fixes) (rules : List Rule) (d : Doc) :
+    ∀ x ∈ (visitDocumentPar (enterRuleM fuel) ⟨s, fx, rules⟩ d {}).rs.errs, x ∈ rules :=
+  (good_document (framed_enterRuleM fuel) d).errsIn ⟨s, fx, rules⟩ {} (fun x hx => by cases hx)
+
+/-- the verdict of the model the driver answers with (`runM`, compared with `validate_ast` on every document):
+    `some true` = no error, `none` = an exception -/
+def verdictM (c : Cfg) (d : Doc) : Option Bool :=
+  match runM (memoFuel d) c d with
+  | .crash _ => none
+  | .errors l => some (l.all fun p => p.2 == 0)
+
+/-- **`verdictM = some true` iff no exception and every rule alone is silent** -/
+theorem verdictM_iff_alone (s : SchemaD) (fx : Fixes) (h7 : fx.v7 = true) (d : Doc) (hw : WfIds d) :
+    verdictM ⟨s, fx, Rule.all⟩ d = some true ↔
+      (visitDocumentPar (enterRuleM (memoFuel d)) ⟨s, fx, Rule.all⟩ d {}).rs.crash = none ∧
+        ∀ r ∈ Rule.all, SilentM s fx r d := by
+  rw [← chainM_silent_iff_alone s fx h7 d hw]
+  unfold verdictM runM
+  simp only
+  cases hc : (visitDocumentPar (enterRuleM (memoFuel d)) ⟨s, fx, Rule.all⟩ d {}).rs.crash with
+  | some e => simp
+  | none =>
+    simp only [Option.some.injEq, List.all_eq_true, List.mem_map, forall_exists_index, and_imp, true_and]
+    constructor
+    · intro h
+      have : (visitDocumentPar (enterRuleM (memoFuel d)) ⟨s, fx, Rule.all⟩ d {}).rs.errs = [] :=
+        errs_nil_of_counts (chainM_errs_in_rules (memoFuel d) s fx Rule.all d) (fun r hr => by
+          have := h (r, countOf (visitDocumentPar (enterRuleM (memoFuel d)) ⟨s, fx, Rule.all⟩ d {}).rs.errs r) r hr rfl
+          simpa using this)
+      simp [E, this]
+    · intro h p r _ e
+      subst e
+      have : (visitDocumentPar (enterRuleM (memoFuel d)) ⟨s, fx, Rule.all⟩ d {}).rs.errs = [] :=
+        List.length_eq_zero_iff.mp h
+      simp [this, countOf]
+
+/-- **the model's verdict is "accepted" iff validation raises nothing and the clauses of all 26 rules hold**
+    (`FullStatement_verdict_iff` of `Props/C06_inv.lean`, for the chain /repo runs, with the hypotheses of the headline
+    theorems) -/
+theorem verdictM_iff_spec (s : SchemaD) (fx : Fixes) (hfx : HeadVars fx) (hs : SchemaOutputs s) (d : Doc)
+    (hd : DocOkM s d) :
+    verdictM ⟨s, fx, Rule.all⟩ d = some true ↔
+      (visitDocumentPar (enterRuleM (memoFuel d)) ⟨s, fx, Rule.all⟩ d {}).rs.crash = none ∧
+        ∀ r ∈ Rule.all, SpecAll r s fx d := by
+  rw [verdictM_iff_alone s fx hfx.2.2.2 d ((wfIdsB_iff d).mp hd.checks.ids), verdict_iff_all_memo s fx hfx hs d hd]
+
 /-! non-vacuity: the two-fragment document; both sides of `chainM_silent_iff_alone` hold for it (by evaluation) -/
+example : verdictM ⟨oSchema, Fixes.all, Rule.all⟩ (oDocFrag "a") = some true := by decide +kernel
+example : verdictM ⟨oSchema, Fixes.all, Rule.all⟩ (oDocFrag "b") = some false := by decide +kernel
 example : E (visitDocumentPar (enterRuleM (memoFuel (oDocFrag "a"))) ⟨oSchema, Fixes.all, Rule.all⟩ (oDocFrag "a") {}) = 0 := by
   decide +kernel
 example : ∀ r ∈ Rule.all, SilentM oSchema Fixes.all r (oDocFrag "a") :=
